@@ -287,6 +287,49 @@ def callee_names(t):
     return {x for x in (t.get("callee"), t.get("resolved")) if x}
 
 
+class _MovedDict(dict):
+    """items by definition path; a path that does not exist (the item was moved to another module of its crate) resolves to
+    the unique item of the same crate whose trailing identifiers agree — `tail` identifiers are compared (1 for types and
+    free items, 2 for associated constants `Type::NAME`)"""
+
+    def __init__(self, tail=1):
+        super().__init__()
+        self.tail = tail
+        self._memo = {}
+
+    def _resolve(self, k):
+        if not isinstance(k, str) or dict.__contains__(self, k):
+            return k
+        if k in self._memo:
+            return self._memo[k]
+        segs = k.split("::")
+        crate = segs[0]
+        for n in sorted({self.tail, 1}, reverse=True):
+            if len(segs) <= n:
+                continue
+            if n == 2 and not segs[-2][:1].isupper():
+                continue
+            tail = segs[-n:]
+            hits = [p for p in dict.keys(self) if p.split("::")[0] == crate and p.split("::")[-n:] == tail and "#" not in p]
+            if len(hits) == 1:
+                self._memo[k] = hits[0]
+                return hits[0]
+        self._memo[k] = k
+        return k
+
+    def get(self, k, d=None):
+        return dict.get(self, self._resolve(k), d)
+
+    def __getitem__(self, k):
+        return dict.__getitem__(self, self._resolve(k))
+
+    def __contains__(self, k):
+        return dict.__contains__(self, self._resolve(k))
+
+    def resolve(self, k):
+        return self._resolve(k)
+
+
 class Program:
     def __init__(self, factdir, config="all"):
         self.factdir = factdir
@@ -296,9 +339,9 @@ class Program:
         self.all_bodies = []
         self.by_id = {}
         self.adts_by_id = {}
-        self.adts = {}
+        self.adts = _MovedDict(tail=1)
         self.impls = []
-        self.consts = {}
+        self.consts = _MovedDict(tail=2)
         self.traits = {}
         self.reachable_items = set()
         for p in sorted(glob.glob(os.path.join(factdir, "*.mir.json"))):
@@ -350,8 +393,14 @@ class Program:
     def method(self, self_adt, name, trait=None, self_ty_contains=None):
         """Unique method body by ADT / trait / name (fail closed: None if absent or ambiguous)."""
         c = self.methods.get((self_adt, trait, name), [])
+        if not c and isinstance(self_adt, str):
+            # the type's definition was moved to another module of its crate
+            c = self.methods.get((self.adts.resolve(self_adt), trait, name), [])
         if self_ty_contains is not None:
             c = [b for b in c if self_ty_contains in b.j["root_item"]["impl"]["self_ty"]]
+        if not c and trait is None and name in getattr(self, "role_bodies", {}):
+            # a private helper that was renamed or moved: found by its role (rules/roles.py)
+            return self.role_bodies[name]
         return c[0] if len(c) == 1 else None
 
     def methods_named(self, self_adt, name, trait=None):
@@ -487,6 +536,12 @@ def load_program(config="all", force=False):
     if key not in _PROGRAMS or force:
         d = extract_facts(repo, config, force=force)
         _PROGRAMS[key] = Program(d, config)
+        _PROGRAMS[key].role_bodies = {}
+        try:
+            from . import roles as _roles
+            _PROGRAMS[key].roles_installed = _roles.install(_PROGRAMS[key])
+        except Exception as e:  # never let the alias helper break a check: unresolved roles fail closed in the rules
+            _PROGRAMS[key].roles_installed = {"error": repr(e)}
         # discriminant values of the workspace's own enums, for deciding switches on known aggregates
         from . import flow as _flow
         for path, a in _PROGRAMS[key].adts.items():
